@@ -45,7 +45,7 @@ CLAIMED = {
         "3 C06",
     ),
     "C08": (
-        "IBAN.generate is executed on symbolic component strings of every length 0..width+2 (one component varied at a time; seeded triples in the thorough tier) for one country per table signature; per path the solver shows the outcome is a valid IBAN whose component fields equal the upper-cased, zero-padded inputs (combined bank+branch split), or a library error of the component-specific class when a component is over-long.",
+        "IBAN.generate is executed on symbolic component strings (quick: full widths, each component one shorter/longer, empty branch, combined bank+branch width, for the 19 computing countries + DE, GB + 8 seeded others; thorough: every length 0..width+2 per component and seeded triples for all countries); per path the solver shows the outcome is a valid IBAN whose component fields equal the upper-cased, zero-padded inputs (combined bank+branch split), or a library error of the component-specific class when a component is over-long.",
         "Alphabet: ASCII digits/letters and all upper-case-stable code points (whitespace/expanding/non-ASCII case-changing code points: Lemma N on clean()). A combined-width bank code together with a non-empty branch code is outside the claim.",
         "3 C08",
     ),
@@ -58,6 +58,16 @@ CLAIMED = {
         "For two symbolic texts wrapped as IBAN/BIC/BBAN/plain str (all 16 kind pairs, lengths 0..2 each; thorough 0..3) the six comparison operators of the real classes and hash() are proved equal to the operators on the normalised strings. copy.copy, copy.deepcopy and the pickle reduce/reconstruct round trip run for real on objects of symbolic content and must return an equal object of the same class with equal country and components.",
         "hash modelled as an uninterpreted function of the content; pickle byte format not modelled (reduce/reconstruct contract only).",
         "3 C16",
+    ),
+    "C17": (
+        "On the data the tree bundles at run time: for every country and every length 0..40 the solver decides whether the regex object built by the real import-time code can match a string of that length (sat iff the stated bban_length); positions inside the BBAN / disjoint and the bank-entry clauses are discharged as unsat queries over a symbolic position / row index; for every country with banks a symbolic bank key constrained to the listed codes is run through the real IBAN.from_bban and bank look-up and must be found again.",
+        "Everything is relative to the bundled data (re-read on every run). Generic three-field algorithms may see an empty string for a field the country lacks (see assumptions).",
+        "3 C17",
+    ),
+    "C18": (
+        "merge_dicts is executed on operand shapes enumerated exhaustively by engine forks (every key absent / leaf / nested over bounded key pools and depth, every frozenset iteration order) with distinct symbolic leaves and compared with a reference deep later-wins merge; inputs must stay unmodified. registry.get, parse_v2 and save run on stub directories of 1-3 files in every glob order (dict, list and v2 documents) and must equal the reference composition in sorted-name order.",
+        "Bounded shapes (see evidence bounds). The solver's part is small here: leaves are opaque to the code; the exhaustive part is the fork-enumerated shape tree.",
+        "3 C18",
     ),
 }
 NOT_APPLICABLE = {}
